@@ -42,6 +42,9 @@ def conditional_pack():
                                                      Inline("User", [Field("friends", [Field("name", directives=I)], directives=S)])])])))
     P.append(("aliases", q([Field("me", [Field("name", alias="n", directives=S), Field("active", alias="a", directives=I), Field("id")])])))
     P.append(("both directives on one field", q([Field("me", [Field("id"), Field("name", directives=S + I)])])))
+    # literal conditions: the server then always / never sends the field, and the response type has to take what it sends
+    P.append(("literal conditions", q([Field("me", [Field("id"), Field("name", directives=[("skip", "=true")]), Field("active", directives=[("include", "=true")]),
+                                                     Field("age", directives=[("include", "=false")]), Field("role", directives=[("skip", "=false")])])])))
     P.append(("conditional spread", q([Field("me", [Field("id"), Spread("UserB", directives=I)])])))
     P.append(("conditional inline fragment in a variant position", q([Field("node", [TN(), Inline("User", [Field("name")], directives=S)])])))
     P.append(("conditional spread on a union", q([Field("thing", [TN(), Spread("CatF", directives=I)])])))
